@@ -6,6 +6,7 @@
 import FqeVerif.Generated.PyInt
 import FqeVerif.Model.Sectors
 import FqeVerif.Lemmas.Bits
+import FqeVerif.Model.Maps
 namespace GenPy
 open PyPrelude Model
 
@@ -198,5 +199,43 @@ theorem py_map_broken_symmetry (sz norb : Int) (e : (Int × Int) × (Int × Int)
     subst this
     have : norb + sz - d = c := by omega
     simp [this]
+
+end GenPy
+
+namespace GenPy
+open PyPrelude Model
+
+/-- one iteration of the Python `_build_mapping` loop, as translated from /repo, is `mappingEntry` (sign `-1` ↔
+    parity bit) for every string and orbital pair -/
+theorem py_build_mapping_entry (s i j : Nat) :
+    build_mapping_entry (s : Int) (i : Int) (j : Int) =
+      (mappingEntry i j s).map (fun x => ((x.1 : Int), (x.2.1 : Int), if x.2.2 then (-1 : Int) else 1)) := by
+  unfold build_mapping_entry mappingEntry
+  simp only [py_get_bit, py_set_bit, py_unset_bit, py_count_bits_between, pyMod, fmod_two]
+  by_cases h1 : getBit s j ≠ 0
+  · by_cases h2 : getBit s i = 0
+    · have e1 : ((getBit s j : Nat) : Int) ≠ 0 := by exact_mod_cast h1
+      have e2 : ¬ ((getBit s i : Nat) : Int) ≠ 0 := by rw [h2]; simp
+      simp only [e1, e2, h1, h2, decide_true, decide_false, Bool.not_false, Bool.and_self, if_true, ne_eq,
+        not_false_eq_true, and_self, Option.map_some]
+      by_cases hp : countBitsBetween s i j % 2 = 1
+      · have : ((countBitsBetween s i j : Nat) : Int) % 2 ≠ 0 := by omega
+        simp [hp, this]
+      · have : ((countBitsBetween s i j : Nat) : Int) % 2 = 0 := by omega
+        simp [hp, this]
+    · have e1 : ((getBit s j : Nat) : Int) ≠ 0 := by exact_mod_cast h1
+      have e2 : ((getBit s i : Nat) : Int) ≠ 0 := by exact_mod_cast h2
+      by_cases hij : i = j
+      · have : (i : Int) = (j : Int) := by exact_mod_cast hij
+        simp [e1, e2, h1, h2, hij]
+      · have : ¬ (i : Int) = (j : Int) := by exact_mod_cast hij
+        simp [e1, e2, h1, h2, hij, this]
+  · have h1' : getBit s j = 0 := by simpa using h1
+    have e1 : ¬ ((getBit s j : Nat) : Int) ≠ 0 := by rw [h1']; simp
+    by_cases hij : i = j
+    · subst hij
+      simp [h1']
+    · have : ¬ (i : Int) = (j : Int) := by exact_mod_cast hij
+      simp [h1', hij, this]
 
 end GenPy
